@@ -22,7 +22,8 @@ RULE = ("exhaustive cross product name x schema(None/str/list/tuple/Schema/neste
         "set, starred; then as_()): all ordered pairs, sampled triples; tables named like the other field's column (x.y / y.x); all pairs of aliased queries / CTEs / builders over "
         "alias x FROM variants; expressions over fields of 1-3 tables with overlapping column names in every operand order "
         "(exhaustive for 2-3 operands, random deeper). non-trivial pair = the two objects differ in at least one attribute "
-        "or are distinct objects that compare equal; distinct = pair of variant indexes / expression shape")
+        "or are distinct objects that compare equal; distinct = pair of variant indexes / expression shape"
+        " also: consumer differentials (star selection, foreign-table flag, join and RETURNING validation incl. non-Table sources and several references, replace_table by equality, identity after rejected calls), schema chains of up to four levels. (DESIGN.md 6a)")
 ASSUMPTIONS = ["hash collisions between unequal objects are allowed by the contract and are not flagged"]
 ANCHORS = ["Table.__eq__", "Table.__hash__", "Schema.__eq__", "AliasedQuery.__eq__", "AliasedQuery.__hash__",
            "QueryBuilder.__eq__", "QueryBuilder.__hash__", "Term.__hash__", "Term.fields_", "Node.find_"]
